@@ -33,6 +33,10 @@ def run(tier):
         rgen = core.tlc_eval(d, "Gen_Unmarshal", dict(OutFile="docs.ndjson", StreamOutFile="streams.ndjson"), heap="4g")
         docs = core.read_ndjson(os.path.join(d, "docs.ndjson"))
         sdocs = core.read_ndjson(os.path.join(d, "streams.ndjson"))
+        # a symbol whose ID lies in the range of an import the catalog lacks: it has an ID and no text
+        for sid in (10, 12, 14):
+            t = '$ion_symbol_table::{imports:[{name:"missing_table",version:1,max_id:5}]} $%d' % sid
+            docs.append(dict(v=dict(t="symbol", null=False, ann=[], v=dict(k="sid", sid=sid, text=[])), fmt="text", bytes=list(t.encode())))
 
         def job_matrix(k, shards):
             dk = wd.sub("mx%d" % k)
@@ -85,6 +89,14 @@ def run(tier):
                                reader_error=o["firsterr"][:120])
                     verdicts.fail(sig, dict(bytes=c["bytes"], fmt=c["fmt"], target=r["type"], trunc=True))
         ncells = 0
+        seen_stale = set()
+        for c, v, o in res:
+            for r in o["res"]:
+                if r.get("stale") and r["type"] not in seen_stale:
+                    seen_stale.add(r["type"])
+                    verdicts.fail(dict(part="prefilled-wrapper", target=r["type"], why=r["stale"], fmt=c["fmt"],
+                                       value=(bytes(c["bytes"]).decode("utf8", "replace") if c["fmt"] == "text" else bytes(c["bytes"]).hex())[:120]),
+                                  dict(bytes=c["bytes"], fmt=c["fmt"], target=r["type"]))
         for c, v, o in res:
             ncells += len(o["res"])
             if v["why"] != "ok":
